@@ -1,5 +1,5 @@
 ID = "C01"
-N_QUICK = 500
+N_QUICK = 400
 N_THOROUGH = 12000
 MODEL_SHOW = "run"
 DISAGREE_IS_VIOLATION = True   # observables are exactly what the property fixes
@@ -13,15 +13,29 @@ RULE = ("every request / notification reaches the peer in one of six ways chosen
         "(code, error text, return value handed to Service.Response: nil / typed nil pointer / TestHello{I,S} / EmptyArg) or a RAW "
         "ServiceResponse given field by field (ErrCode, ErrInfo, Type in none/TestHello/EmptyArg/unregistered, Body = encoding of "
         "(I,S) - ZERO bytes when both are default - or junk), and the observation of a callback is the whole (err, msg) pair: which "
-        "error and its text, whether a message came with it, the message's dynamic type and every field; "
+        "error and its text, whether a message came with it, the message's dynamic type and every field; every response also carries a "
+        "GHOST: the op names the request the peer is to answer (its tag; 60% of the answers to pending requests, every answer aimed at "
+        "a request of a replaced incarnation; -1 = whichever request it received last under that id), the peer - which keeps all "
+        "request objects it received by tag - answers that very object through the real path, and the event reports the tag of the "
+        "object it did answer (-1 for hand-made responses); histories in which the live incarnation has a request under the id of an "
+        "older incarnation's request that the peer answers (open finding F24, the monitor fails) are kept few and short: the corpus "
+        "line corpus-F24 and about one random history per quick run; "
         "fixed: 44 value histories = every answer {code 0, 999, -1} x {empty, non-empty text} x {nil, typed nil, all-default, "
         "string only, int only, both, MinInt32 + 300-byte string, EmptyArg} through Service.Response / the API completion closure / "
         "QuerySession, and every raw response {code 0, 999, -1} x {text} x {4 types} x {empty, string only, int only, both, junk}, "
         "each followed by a duplicate of another kind; "
-        "fixed: 12 routed histories (2 per way), 13 boundary histories (deadline = now / now-1 / now+1, id allocator at MaxReqId-1 and MaxReqId, late and "
-        "duplicate replies, suppressed replies, undecodable bodies, nested no-route callbacks), 1 (quick) / 4 (thorough) histories "
-        "scanned by the REAL 1 s timer; exhaustive: every op sequence of length <= 3 (quick) / 4 (thorough) over an 8-op alphabet "
-        "(request, re-entrant request, notify, the ALL-DEFAULT reply (zero-byte body) for id 1, remote error for id 2, advance 30000, advance 1, tick) followed by "
+        "the op `Crash` makes a handler of the REQUESTING service panic (a user message whose handler panics): the supervisor "
+        "restarts the actor, the producer builds a fresh Service; every incarnation's Service object is kept and observed (pending "
+        "ids and timer flag per incarnation), callbacks act through the incarnation that issued their request, a Tick fires the "
+        "scan of every incarnation whose timer is armed (oldest first) and the realtimer histories let the real 1 s timers of "
+        "replaced incarnations do it; "
+        "fixed: 19 restart histories (requests outstanding at the restart, replies after it - unknown to the live incarnation or "
+        "hitting a request of its own under the reused id -, retries from a replaced incarnation's timeout callbacks, restarts in "
+        "a row, at the deadline boundary, at the allocator wrap, with unserialisable / no-route requests, through all six ways of "
+        "reaching the peer), 12 routed histories (2 per way), 13 boundary histories (deadline = now / now-1 / now+1, id allocator at MaxReqId-1 and MaxReqId, late and "
+        "duplicate replies, suppressed replies, undecodable bodies, nested no-route callbacks), 2 (quick) / 6 (thorough) histories "
+        "scanned by the REAL 1 s timers (one / two with restarts); exhaustive: every op sequence of length <= 3 (quick) / 4 (thorough) over a 9-op alphabet "
+        "(request, re-entrant request, notify, the ALL-DEFAULT reply (zero-byte body) for id 1, remote error for id 2, advance 30000, advance 1, tick, restart) followed by "
         "a completing suffix; random: 1-70 ops, up to ~40 outstanding requests, callback programmes nested to depth 2 (requests, "
         "unserialisable requests, notifies, no-route requests issued from inside callbacks), replies aimed at pending / completed "
         "(late, duplicate) / unknown ids with answers (58%: value fields default a third of the time, ints at 1/-1/127/128/Min/MaxInt32, "
@@ -29,7 +43,9 @@ RULE = ("every request / notification reaches the peer in one of six ways chosen
         "(20%: codes 999/1/-1/1000/Min/MaxInt32, empty text in 1/5, a return value alongside in 3/10) and raw responses (22%: any "
         "code/text/type/body combination: typed with empty body, body without type, error code with type and body, unknown type, "
         "junk), clock steps "
-        "aimed at deadline-1/deadline/deadline+1, allocator started at MaxReqId-3..MaxReqId in 1/4 of the cases, 60% completed by "
+        "aimed at deadline-1/deadline/deadline+1 of any incarnation, allocator started at MaxReqId-3..MaxReqId in 1/4 of the cases, up to 3 "
+        "restarts per history (22% of the random histories restart, 16% with requests outstanding) followed by replies to requests "
+        "of replaced incarnations, 60% completed by "
         "scans after every deadline. Non-trivial = at least one request was completed by a callback other than NoService; "
         "distinct = distinct op sequences.")
 TRUSTED_BASE = [
@@ -42,7 +58,8 @@ TRUSTED_BASE = [
     "Go harness harness/c01 (actor driver: ops as messages through the service mailbox, scripted peer service, sender middleware "
     "recording sends, closures recording callbacks), verif hook actorex/service/verif_export.go, bin/check.py JSON->Coq term printer",
     "the order in which Go's map iteration yields expired requests inside one checkExpired is taken from the implementation's own "
-    "trace (Corr.with_hints); the theorems hold for every order",
+    "trace (Corr.with_hints, one hint per incarnation's scan); the theorems hold for every order; the order in which the timers of "
+    "different incarnations fire within one second is fixed (oldest first) - they act on disjoint tables",
     "modelled not verified: protoactor (local Send = post to the target mailbox, FIFO per mailbox; supervision), cell2's mailbox and "
     "runservice loop (C09/C04), utils/timer (the armed 1 s timer calls checkExpired: sampled by the realtimer cases, otherwise the "
     "harness fires the scan itself through VerifCheckExpired when the timer is armed), protobuf wire format (Model.v abstracts a body "
@@ -52,14 +69,30 @@ TRUSTED_BASE = [
     "measured, not proved: every callback and every operation ran on the goroutine of the service loop (runtime.Stack goroutine id), "
     "reported as the onloop bit of each observation and required by the monitor",
 ]
+KNOWN_FINDINGS_TEXT = (
+    "F24 (open, known_findings.json; NOT an assumption): a restarted requester's fresh Service numbers its requests from 1 again "
+    "while requests of the replaced incarnation are outstanding, so the peer's reply to an OLD request completes a NEW request that "
+    "carries the same id.  The check sees it: a response carries, as a ghost, the tag of the request object the peer answered, and "
+    "the monitor clause Spec.answers_own (a reply completes the request the peer was answering; proved for histories without "
+    "restart / allocator set-up / wrap: C01_reply_answers_own_request; refuted with a restart: C01_restart_reuses_ids) fails on "
+    "corpus line corpus-F24 and on the random histories tagged restart-id-reuse; finding_signature recognises exactly this kind. "
+    "Proposal, not applied: hooks/C01-proposed-restart-shared-id-sequence.patch.txt; stand-alone reproduction: "
+    "harness/c01/repro/restart_id_reuse_test.go.txt")
 ASSUMPTIONS = [
     "Request/Notify are called inside the service's own context (the code comments require it); the harness does so",
     "freshness guard: no request is registered under an id that is still pending; by C01_clash_needs_wrap this can only fail after "
     "MaxReqId = 0x7FFFFFF0 further requests were issued while one stayed pending (within its 30 s deadline); C01_wrap_refuted shows "
     "the lost callback when it does fail",
-    "user callbacks do not panic (a panic restarts the actor, which drops the pending table)",
+    "user CALLBACKS do not panic (handleResponse / checkExpired delete the entry only after the callback returned: a callback that "
+    "panics is run a second time by the expiry scan); a panic in any OTHER handler of the requesting service is the op Crash and is "
+    "covered: the supervisor restarts the actor, nothing of the replaced incarnation is lost",
+    "restart directive of the supervisor (protoactor default: restart, at most 10 times in 10 s, then stop); histories restart at "
+    "most 3 times",
+    "callbacks issue follow-up requests through the Service that issued the original one (the closure captured it), as user code "
+    "embedding *service.Service does",
     "the model is of the repaired code (hooks/C01-fix-arm-timer-on-register.patch, hooks/C01-fix-response-unknown-type.patch)",
     "the virtual clock common.VerifSetNowMs replaces wall-clock time; time never runs backwards",
+    "NOT an assumption - open known finding: " + KNOWN_FINDINGS_TEXT,
     "code as it is: a body that fails to parse completes the callback with the decode error TOGETHER WITH the partially filled "
     "message proto.Unmarshal leaves behind (class RBad true); callers must test err before msg",
 ]
@@ -70,7 +103,8 @@ TECHNIQUE = ("Coq proof: executable model of the pending-request table decompose
              "implementation's own event trace")
 LEVEL_TEXT = ("Machine-checked Coq theorems over ALL operation lists (all interleavings of requests, re-entrant callbacks, replies, "
               "duplicates, late and unknown replies, clock steps and expiry scans in any map-iteration order): at most one callback "
-              "per request, result matching, the callback's (err, msg) value = the decoding of the completing response's fields "
+              "per request (across restarts of the requesting actor: requests outstanding at a restart are completed exactly once by the replaced "
+              "incarnation's own timer, replies after the restart go to the live incarnation), result matching, the callback's (err, msg) value = the decoding of the completing response's fields "
               "(nil only for an untyped response, all-default / typed-nil replies arrive as the non-nil zero message, an error code "
               "carries its text and no message), discard without effect, |pending| = issued - completed, exactly-once and empty table in "
               "complete histories, timer armed while anything is pending, id wrap-around guard. The model is tied to the Go code by "
@@ -90,3 +124,64 @@ def extra_coverage(cases):
             if not a[5]:
                 off += 1
     return {"measurement_callbacks_observed": ncb, "measurement_ops_off_loop_goroutine": off}
+
+
+# ---------------------------------------------------------------- known finding F24
+F24_SIGNATURE = ("C01:F24 after a restart of the requester the reply to a request of a replaced incarnation completes "
+                 "a request of a later incarnation that reuses its request id")
+_SPAN = 0x7FFFFFF0 + 1
+
+
+def _name_args(t):
+    if isinstance(t, str):
+        return t, []
+    if isinstance(t, dict) and len(t) == 1:
+        (n, a), = t.items()
+        return n, a
+    return None, []
+
+
+def finding_signature(case):
+    """F24_SIGNATURE iff the case violates the clause 'a reply completes the request the peer was answering' and EVERY such
+    violation is of the restart kind: the response's ghost names a request g issued by an EARLIER incarnation, the callback that
+    ran belongs to a request t of a LATER incarnation, and both were issued under the same request id (so a Crash lies between
+    them).  Any other violation of the clause (no restart involved, different ids), a request completed twice, a pending request
+    whose incarnation's timer is off or an operation off the service goroutine makes the case NOT match (returns '')."""
+    try:
+        issued, done, bad, f24 = {}, {}, 0, 0
+        for ob in case.get("obs") or []:
+            n, a = _name_args(ob)
+            if n != "Obs":
+                return ""
+            evs, pend, arms, got, peer, onloop = a
+            if not onloop:
+                return ""
+            for k in pend:
+                inc = k // _SPAN
+                if inc < 0 or inc >= len(arms) or not arms[inc]:
+                    return ""
+            prev = None
+            for e in evs:
+                en, ea = _name_args(e)
+                if en == "EIssue":
+                    issued[ea[0]] = (ea[1] // _SPAN, ea[1] % _SPAN)
+                elif en == "ECb":
+                    t, cn = ea[0], _name_args(ea[1])[0]
+                    done[t] = done.get(t, 0) + 1
+                    if done[t] > 1:
+                        return ""
+                    if prev is not None and cn not in ("RTimeout", "RNoService"):
+                        g = prev
+                        if g >= 0 and g != t:
+                            if (g in issued and t in issued and issued[g][1] == issued[t][1]
+                                    and issued[g][0] < issued[t][0]):
+                                f24 += 1
+                            else:
+                                bad += 1
+                prev = None
+                if en == "EResp":
+                    kn, ka = _name_args(ea[1])
+                    prev = ka[0] if kn == "K" else None
+        return F24_SIGNATURE if f24 > 0 and bad == 0 else ""
+    except Exception:
+        return ""
